@@ -38,7 +38,7 @@ Theorem C01_delivery : forall cf app, passive app -> zpos (c_ping_timeout cf) = 
   idle c open -> data_head open -> Forall plain fs -> forms_ok fs lfs ->
   ref_messages open fs = Some (ms, open') ->
   exists c', feedf cf app c (encode_all fs lfs) = (c', SOk) /\ idle c' open' /\ data_head open' /\
-             msg_events (k_tr c') = rev (map ev_of ms) ++ msg_events (k_tr c).
+             msg_events (k_tr c') = rev (map ev_of ms) ++ msg_events (k_tr c) /\ k_sock c' = k_sock c.
 Proof. exact deliver_frames. Qed.
 Print Assumptions C01_delivery.
 
@@ -48,9 +48,38 @@ Theorem C01_delivery_any_chunking : forall cf app, passive app -> zpos (c_ping_t
   idle c open -> data_head open -> Forall plain fs -> forms_ok fs lfs ->
   ref_messages open fs = Some (ms, open') -> concat ds = encode_all fs lfs ->
   exists c', feed_chunks cf app c ds = (c', SOk) /\ idle c' open' /\ data_head open' /\
-             msg_events (k_tr c') = rev (map ev_of ms) ++ msg_events (k_tr c).
+             msg_events (k_tr c') = rev (map ev_of ms) ++ msg_events (k_tr c) /\ k_sock c' = k_sock c.
 Proof. exact deliver_frames_chunked. Qed.
 Print Assumptions C01_delivery_any_chunking.
+
+(* ... and at the level of the event loop (WebsocketSession.run): the reads may cut the encoded stream anywhere, also in
+   the middle of a frame header, an extended length or a payload; between them any amount of time may pass and the
+   selector may time out any number of times, with the session's Poll events and automatic Pings going on.  From a
+   connection between two frames whose socket is open, the loop yields exactly the reference's messages and is left
+   waiting for more (TBlocked), again between two frames. *)
+Theorem C01_event_loop_delivery : forall cf app, passive app -> zpos (c_ping_timeout cf) = None ->
+  forall steps c open fs lfs ms open',
+  Forall quiet_step steps -> idle c open -> data_head open -> k_sock c = true ->
+  Forall plain fs -> forms_ok fs lfs -> ref_messages open fs = Some (ms, open') ->
+  encode_all fs lfs = concat (reads_of steps) ->
+  exists c', loop cf app steps c = emit TBlocked c' /\ idle c' open' /\
+             msg_events (k_tr c') = rev (map ev_of ms) ++ msg_events (k_tr c).
+Proof. exact loop_delivers_all. Qed.
+Print Assumptions C01_event_loop_delivery.
+
+(* The whole connection attempt, from WebSocket.connect(): the request is written, the server's upgrade reply (any block
+   the handshake decision accepts without compression) arrives in one read, then the conforming stream in any pieces.
+   The message events among everything the iterator yields are exactly the messages of the reference reading: one
+   event per message, in the order the messages complete, with their payloads. *)
+Theorem C01_run_delivery : forall cf app, passive app -> zpos (c_ping_timeout cf) = None ->
+  forall keys wf zt ct dt0 reply proto steps fs lfs ms open',
+  (match wf with [] => True | w :: _ => w = WOk end) ->
+  reply_block reply -> on_response (c_accept cf) (parse_response reply) = HReady proto None ->
+  Forall quiet_step steps -> Forall plain fs -> forms_ok fs lfs ->
+  ref_messages [] fs = Some (ms, open') -> encode_all fs lfs = concat (reads_of steps) ->
+  msg_events (k_tr (run cf app (init keys wf zt ct) CnOk (StRead dt0 (RData reply) :: steps))) = rev (map ev_of ms).
+Proof. exact run_delivers. Qed.
+Print Assumptions C01_run_delivery.
 
 (* ---------- the hypotheses are met: a connection right after an accepted handshake, and a stream with a fragmented
    text message (one empty fragment), a Ping between its fragments, non-minimal length forms ---------- *)
@@ -80,5 +109,27 @@ Proof.
   split; [exact I|].
   split. { repeat constructor; vm_compute; reflexivity. }
   split. { vm_compute. tauto. }
+  split; vm_compute; reflexivity.
+Qed.
+
+(* the run-level hypotheses are met as well: the stream of fs0 cut into 7-byte reads with idle timeouts in between *)
+Fixpoint chop (n : nat) (fuel : nat) (d : bytes) : list bytes :=
+  match fuel with
+  | O => []
+  | S fuel' => match d with [] => [] | _ => firstn n d :: chop n fuel' (skipn n d) end
+  end.
+Definition steps0 : list step :=
+  flat_map (fun d => [StTimeout 3%Z; StRead 1%Z (RData d)]) (chop 7 1000 (encode_all fs0 lfs0)).
+Example C01_run_nonvacuous :
+  reply_block reply0 /\ on_response (c_accept cf0) (parse_response reply0) = HReady None None /\
+  Forall quiet_step steps0 /\ encode_all fs0 lfs0 = concat (reads_of steps0) /\
+  msg_events (k_tr (run cf0 app0 (init [] [] [] []) CnOk (StRead 0%Z (RData reply0) :: steps0))) =
+    rev [EvPing (str "p"%string); EvText (str "Hello"%string); EvBinary (repeat x00 200); EvPong []].
+Proof.
+  split. { exists (length reply0 - 4)%nat. vm_compute. repeat split; try reflexivity. discriminate. }
+  split; [vm_compute; reflexivity|].
+  split. { apply Forall_forall. intros st Hst. unfold steps0 in Hst. apply in_flat_map in Hst as (d & Hd & Hst).
+           destruct Hst as [<-|[<-|[]]]; [exact I|]. destruct d; [|exact I].
+           exfalso. revert Hd. vm_compute. intuition discriminate. }
   split; vm_compute; reflexivity.
 Qed.
